@@ -54,6 +54,9 @@ def gen_data_family(rng, n_roots=(1, 2)):
                 'ch_desc': ch_desc, 'time_desc': {}, 'order': rng.pick(['F', 'S']) if rng.chance(0.3) else 'C',
                 'dtype': 'float32' if rng.chance(0.12) else 'float64',
                 'descriptors': {'subj': rng.pick(['s1', 's2']), 'sess': rng.pick([1, 2])}}
+        if rng.chance(0.15):
+            # the user's own descriptor called 'index' (trial numbers): an ordinary descriptor for datasets
+            spec['obs_desc']['index'] = {'values': [100 + 3 * i for i in range(n_obs)], 'container': rng.pick(['list', 'array'])}
         if rng.chance(0.2):
             # a numeric observation descriptor with missing entries (reaction times of missed trials ...)
             rt = [rng.pick([0.5, 0.75, 0.5]) for _ in range(n_obs)]
@@ -900,12 +903,13 @@ def _add_data_producers():
         try:
             if variant == 0 and src.kind == 'tdataset':
                 name = f'calc_rdm_movie[{method}]'
-                calc_rdm_movie(obj, method=method, descriptor='cond', cv_descriptor=cvd)
+                calc_rdm_movie(obj, method=method, descriptor=None if (o['a'][5] % 4 == 0 and method not in ('crossnobis', 'poisson_cv')) else 'cond',
+                               cv_descriptor=cvd)
             elif src.kind == 'tdataset':
                 return False
             elif variant == 1:
                 name = f'calc_rdm_unbalanced[{method}]'
-                calc_rdm_unbalanced(obj, method=method, descriptor='cond', cv_descriptor=cvd)
+                calc_rdm_unbalanced(obj, method=method, descriptor=None if o['a'][5] % 3 == 0 else 'cond', cv_descriptor=cvd)
             elif variant == 2:
                 name = 'noise[cov/prec]'
                 N.cov_from_measurements(obj, obs_desc='cond', method=['shrinkage_eye', 'shrinkage_diag', 'diag', 'full'][o['a'][2] % 4])
